@@ -111,6 +111,7 @@ func Run(prefix []int, body func(), pre func(*Sched)) *Sched {
 	if pre != nil {
 		pre(s)
 	}
+	resetGlobals()
 	cur.Store(s)
 	t := s.newThread("main")
 	t.cid = 1
